@@ -108,13 +108,7 @@ impl TFault {
         match self {
             TFault::S(StructFault::IntSet(p, v)) => {
                 let old = get(honest, p).and_then(|x| x.as_u64()).unwrap_or(u64::MAX);
-                if *v + 1 == old {
-                    "int-1".into()
-                } else if *v == old.wrapping_add(1) {
-                    "int+1".into()
-                } else {
-                    format!("int={v}")
-                }
+                format!("int{}", rel(old, *v))
             }
             TFault::S(f) => f.tag(),
             TFault::Replace { tag, .. } => tag.to_string(),
@@ -159,6 +153,8 @@ impl TFault {
                 value: v["v"].clone(),
                 tag: match v["tag"].as_str()? {
                     "toggle_bool" => "toggle_bool",
+                    "pop_first" => "pop_first",
+                    "dup_first" => "dup_first",
                     _ => "swap_variant",
                 },
             },
@@ -179,13 +175,19 @@ enum Case {
     Meta(TFault),
 }
 
+/// Integer fault relative to the honest value, without the values themselves: `-1`, `+1`, `=0`,
+/// `=small` (1, 2), `=big` (≥ 31: 31, 32, 63, 64, 255, 2^32).
 fn rel(old: u64, new: u64) -> String {
-    if new + 1 == old {
+    if new.wrapping_add(1) == old {
         "-1".into()
-    } else if new == old + 1 {
+    } else if new == old.wrapping_add(1) {
         "+1".into()
+    } else if new == 0 {
+        "=0".into()
+    } else if new < 31 {
+        "=small".into()
     } else {
-        format!("={new}")
+        "=big".into()
     }
 }
 
@@ -229,6 +231,33 @@ impl Case {
                 format!("param:{}:{}{}", scope.tag(), field, rel(old, *value))
             }
             Case::NoMmcs => "param:fvp_only:permutation_config=None".into(),
+        }
+    }
+    /// Coarse fault class used in violation keys: fault kind with pop/empty merged into `shorten`
+    /// and dup_last called `lengthen`, applied to the NAME of the faulted member (last object key
+    /// of the path), e.g. `shorten@cap`, `int+1@degree_bits`. One root cause (say, "an empty Merkle
+    /// cap is not rejected") then has one key however many caps a proof shape contains.
+    fn key_class(&self, fx: &Fixture) -> String {
+        fn coarse(kind: String) -> String {
+            match kind.as_str() {
+                "pop" | "empty" | "pop_first" => "shorten".into(),
+                "dup_last" | "dup_first" => "lengthen".into(),
+                _ => kind,
+            }
+        }
+        fn member(p: &Path) -> String {
+            p.iter()
+                .rev()
+                .find_map(|s| match s {
+                    vpe4::Seg::Key(k) => Some(k.clone()),
+                    _ => None,
+                })
+                .unwrap_or_default()
+        }
+        match self {
+            Case::Tree(f) => format!("{}@{}", coarse(f.kind(&fx.honest)), member(f.path())),
+            Case::Meta(f) => format!("meta:{}@{}", coarse(f.kind(&fx.extra["bsp_json"])), member(f.path())),
+            _ => self.class(fx),
         }
     }
     fn show(&self) -> String {
@@ -282,12 +311,15 @@ fn set_fvp_field(f: &mut FvpSpec, field: &str, v: usize) {
     }
 }
 
-fn int_values(u: u64) -> Vec<u64> {
+/// Fault values of an integer whose honest value is `u`: −1, +1, 0, 63; thorough adds
+/// 1, 2, 31, 32, 64, 255, 2^32.
+fn int_values(u: u64, thorough: bool) -> Vec<u64> {
     let mut vals = vec![];
     if u > 0 {
         vals.push(u - 1);
     }
-    for v in [u + 1, 0, 63] {
+    let extra: &[u64] = if thorough { &[1, 2, 31, 32, 64, 255, 1 << 32] } else { &[] };
+    for &v in [u + 1, 0, 63].iter().chain(extra) {
         if v != u && !vals.contains(&v) {
             vals.push(v);
         }
@@ -295,22 +327,73 @@ fn int_values(u: u64) -> Vec<u64> {
     vals
 }
 
+/// Structural faults of a tree. Quick: E4's set (pop / dup_last / empty, object members → null,
+/// null → filled, structural integers −1/+1/0/63). Thorough adds: EVERY node → null (array
+/// elements too), first element removed / duplicated for arrays of length ≥ 2, more integer values.
+fn tree_faults(tree: &Value, thorough: bool) -> Vec<TFault> {
+    let mut out: Vec<TFault> = vec![];
+    for f in struct_faults(tree, thorough) {
+        match f {
+            StructFault::IntSet(p, _) => {
+                // re-enumerated below with the tier's value set
+                let _ = p;
+            }
+            f => out.push(TFault::S(f)),
+        }
+    }
+    for l in leaves(tree) {
+        if l.kind == vpe4::LeafKind::Structural {
+            for v in int_values(l.value, thorough) {
+                out.push(TFault::S(StructFault::IntSet(l.path.clone(), v)));
+            }
+        }
+    }
+    if thorough {
+        fn firsts(v: &Value, path: &mut Path, out: &mut Vec<TFault>) {
+            match v {
+                Value::Array(a) => {
+                    if a.len() >= 2 {
+                        let mut popped = a.clone();
+                        popped.remove(0);
+                        out.push(TFault::Replace { path: path.clone(), value: Value::Array(popped), tag: "pop_first" });
+                        let mut dup = a.clone();
+                        dup.insert(0, a[0].clone());
+                        out.push(TFault::Replace { path: path.clone(), value: Value::Array(dup), tag: "dup_first" });
+                    }
+                    for (i, x) in a.iter().enumerate() {
+                        path.push(vpe4::Seg::Idx(i));
+                        firsts(x, path, out);
+                        path.pop();
+                    }
+                }
+                Value::Object(m) => {
+                    for (k, x) in m {
+                        path.push(vpe4::Seg::Key(k.clone()));
+                        firsts(x, path, out);
+                        path.pop();
+                    }
+                }
+                _ => {}
+            }
+        }
+        firsts(tree, &mut vec![], &mut out);
+    }
+    out
+}
+
 /// Every single fault of the `BatchStarkProof` metadata. `proof` and `stark_common` are left out:
 /// they are the tree's `proof` / `common` (already enumerated as tree faults).
-fn meta_faults(bsp: &Value) -> Vec<TFault> {
+fn meta_faults(bsp: &Value, thorough: bool) -> Vec<TFault> {
     let mut view = bsp.clone();
     if let Some(m) = view.as_object_mut() {
         m.remove("proof");
         m.remove("stark_common");
     }
-    let mut out: Vec<TFault> = struct_faults(&view, false)
-        .into_iter()
-        .filter(|f| !matches!(f, StructFault::IntSet(..)))
-        .map(TFault::S)
-        .collect();
-    // every number in the metadata is a count / size / degree (w_binomial is `null` for D = 1)
+    let mut out: Vec<TFault> = tree_faults(&view, thorough).into_iter().filter(|f| !f.is_int()).collect();
+    // every number in the metadata is a count / size / degree (w_binomial: `null` for D = 1, a
+    // field element otherwise — faulted like the others)
     for l in leaves(&view) {
-        for v in int_values(l.value) {
+        for v in int_values(l.value, thorough) {
             out.push(TFault::S(StructFault::IntSet(l.path.clone(), v)));
         }
     }
@@ -346,23 +429,23 @@ fn meta_faults(bsp: &Value) -> Vec<TFault> {
     out
 }
 
-fn all_cases(fx: &Fixture) -> Vec<Case> {
-    let mut cases: Vec<Case> = struct_faults(&fx.honest, false).into_iter().map(|f| Case::Tree(TFault::S(f))).collect();
+fn all_cases(fx: &Fixture, thorough: bool) -> Vec<Case> {
+    let mut cases: Vec<Case> = tree_faults(&fx.honest, thorough).into_iter().map(Case::Tree).collect();
     let fri = &fx.desc["fri"];
     for field in FVP_FIELDS {
-        for v in int_values(fri_field(fri, field)) {
+        for v in int_values(fri_field(fri, field), thorough) {
             cases.push(Case::Param { scope: Scope::Fvp, field: field.to_string(), value: v });
             cases.push(Case::Param { scope: Scope::Both, field: field.to_string(), value: v });
         }
     }
     cases.push(Case::NoMmcs);
     for field in CONFIG_ONLY_FIELDS {
-        for v in int_values(fri_field(fri, field)) {
+        for v in int_values(fri_field(fri, field), thorough) {
             cases.push(Case::Param { scope: Scope::Config, field: field.to_string(), value: v });
         }
     }
     if !fx.extra["bsp_json"].is_null() {
-        cases.extend(meta_faults(&fx.extra["bsp_json"]).into_iter().map(Case::Meta));
+        cases.extend(meta_faults(&fx.extra["bsp_json"], thorough).into_iter().map(Case::Meta));
     }
     cases
 }
@@ -407,7 +490,8 @@ fn split_loc(loc: &str) -> (String, String) {
 fn msg_class(msg: &str) -> String {
     let mut out = String::new();
     let mut in_num = false;
-    for c in msg.chars() {
+    // first line only: `assert_eq!` appends the two values on further lines
+    for c in msg.lines().next().unwrap_or("").trim().chars() {
         if c.is_ascii_digit() {
             if !in_num {
                 out.push('N');
@@ -711,7 +795,7 @@ fn family(fx: &Fixture) -> String {
 
 /// Violation key of a judged case, if it violates C15.
 fn violation_key(fx: &Fixture, case: &Case, j: &Judged) -> Option<(String, String)> {
-    let class = case.class(fx);
+    let class = case.key_class(fx);
     match j.outcome.as_str() {
         "panic" => Some((
             format!("panic|{}|{}|{}", j.stage, j.panic_loc, class),
@@ -839,7 +923,7 @@ fn main() {
         // still meaningful there; clause (b) cannot fire.
         let honest_note = if hc.accepts() { "accepted by both".to_string() } else { format!("native accepts, circuit {} at `{hstage}` (C01's finding; clause (b) vacuous here)", hc.tag()) };
 
-        let cases = all_cases(&fx);
+        let cases = all_cases(&fx, !ctx.quick());
         planned_total += cases.len() as u64;
         let indexed: Vec<(usize, Case)> = cases.iter().cloned().enumerate().collect();
         let (wk, inproc): (Vec<_>, Vec<_>) = indexed.into_iter().partition(|(_, c)| c.needs_worker());
